@@ -14,3 +14,8 @@ add("C04", "TLC: exact bounded weighted least-squares optimum by active-set/KKT 
 add("C06", "TLC: exact vertex set of the solution polytope -> per-source extents; invariants min<=max, within bounds, LSQ minimiser inside, empty iff exterior; replay into range_of_solutions incl. spaced solutions and error modes",
     "Convex.tla!RangeOf gives the exact extents as rationals from vertex enumeration; every lattice (system, target) is replayed: extents to 1e-7, spaced solutions (n=2..10) in bounds and reproducing the target to 1e-6, outside targets raise / return the best fit as both ends.",
     "Trusted: TLC, parser. Boundary targets asserted only when the call answers and the system is dyadic. Lattice: 1-3 receptors, 1-3 surplus sources.")
+
+HOOK_COMMITS += ["1437fd2", "a063bd9"]
+add("C05", "TLC model checking of the batch-schedule state machine (Parallel.tla) + Apalache inductive invariant for unbounded N, batch size + TLC trace validation (Trace_C05) of hook-recorded executions of every fitting procedure",
+    "Parallel.tla models batched_iteration/_solve_problem as a partition-and-scatter machine: TLC checks for all N<=6 and all batch sizes (incl. 'full', >N) that every row is written exactly once with its own optimum and the call terminates without failure, for the code's schedule and for every generic schedule; Apalache discharges the inductive invariant for all N, bs. The real gaussian / poisson / excitation / variance-minimisation calls are executed for every (N, batch size) with hooks on; Trace_C05 validates partition, absence of failure, and that the inferred per-row result function is the same for every batch size and neighbourhood (permuted / duplicated / dropped / appended rows).",
+    "Trusted: TLC, Apalache, parser, hook placement (after the scatter). Row agreement tolerance 4e-2 capture units. Hooks absent => partition sub-check skipped (never a violation).")
